@@ -1,0 +1,11 @@
+//go:build !verif
+
+package simpledb
+
+import "github.com/thomasjungblut/go-sstables/sstables"
+
+func verifPoint(_ string) {}
+
+func verifWrapCompactionInputs(its []sstables.SSTableMergeIteratorContext) []sstables.SSTableMergeIteratorContext {
+	return its
+}
